@@ -89,13 +89,17 @@ def used_exact(case):
                 yield from pairs(s_model[2], s_obj.statements)
 
     for s_model, s_obj in pairs(prog["body"], c.body.statements):
-        if any(x[0] == "g" and (x[1] in ("prepare_all", "measure_all") or x[1].startswith("BSY")) for x in walk([s_model])):
-            continue
-        # macros containing busy gates cannot be analysed stand-alone either
-        if any(x[0] == "g" and x[1] in mn and _macro_busy(prog, x[1]) for x in walk([s_model])):
+        busy = any(x[0] == "g" and (x[1] in ("prepare_all", "measure_all") or x[1].startswith("BSY")) for x in walk([s_model])) or any(
+            x[0] == "g" and x[1] in mn and _macro_busy(prog, x[1]) for x in walk([s_model])
+        )
+        st_, g = guard(get_used_qubit_indices, s_obj, what="get_used_qubit_indices(statement)")
+        if busy:
+            # which qubits "all" are is only known within a circuit: the analysis of a bare
+            # statement may refuse (JaqalError), it may not crash or answer something else
+            if st_ == "ok" and set(dict(g).get(regname, set())) != set(range(n)):
+                raise Violation("statement-used-set", f"statement {s_model} reaches a busy gate: got {dict(g)}, all qubits are {list(range(n))}\n--- program:\n{text}", where="busy")
             continue
         w = _used_of_stmt(ref, s_model, n)
-        st_, g = guard(get_used_qubit_indices, s_obj, what="get_used_qubit_indices(statement)")
         if st_ == "err":
             raise Violation("rejected-valid-statement", f"{g}\n--- statement of program:\n{text}")
         gs = set(dict(g).get(regname, set()))
